@@ -39,6 +39,21 @@ CLAIMED['C03'] = dict(
          'whose model exists (see evidence theorems list); the others are covered by judging the implementation outputs with the proved decider.',
     technique='Lean 4 proof (invariant preserved by every constructor) + proved decider run on implementation outputs + typed-AST correspondence')
 
+CLAIMED['C05'] = dict(
+    text='Lean 4 theorems over the constructor model `build`: the intrinsic type of a literal / operator result / function result / set / range / '
+         'quantifier is what build returns for it (build_intrinsic); HasClash (an argument position of an operator, function - against every '
+         'overload, by monotonicity of overload acceptance -, range bound, set member, quantifier domain or condition, field access or index '
+         'whose demanded type is disjoint from the intrinsic type found there, or two atomic operands of =/!=, at any depth) implies build never '
+         'yields an AST (clash_rejected); the executable detector hasClashB is proved sound for HasClash and is run on every generated input, so '
+         'the evidence counts how many inputs the theorem covers directly; quantified-variable clashes follow from C03 build_WT '
+         '(quant_var_clash_rejected); a non-boolean root and a reference at two disjoint types are rejected by predFromExpr with a type error '
+         '(nonbool_root_rejected, ref_clash_rejected). The implementation is exercised at five entry points on one injected clash per input.',
+    design_ref='DESIGN.md §6 C05',
+    note='Trusted: Lean kernel and standard axioms; extract_tables.py (operator/function signatures regenerated from /repo); the constructor '
+         'model is tied to the code by the C03/C05 correspondence streams (both must reject with the same error class); the clash injector '
+         '(harness/clash.py) is cross-checked against the proved-sound detector.',
+    technique='Lean 4 proof (rejection theorem over the constructor model, sound executable clash detector) + clash-injection correspondence at 5 entry points')
+
 CLAIMED['C02'] = dict(
     text='Lean 4 theorems: sanityCheck (the model of HplProperty.sanity_check, threading the tuple of available aliases exactly as the four '
          '_check_* helpers do) accepts exactly the WellScoped scope/pattern pairs (declarative judgement over free references and aliases per '
